@@ -46,6 +46,21 @@ def gen_pixels(tier, rng):
                                             src_c={"g": "const", "v": comps}, log=("minmax",),
                                             chk=("pipeline", "ret_ok", "uniform_mm_ulp1" if info["comp"] == "f32" else "uniform_mm"),
                                             echo={"v": keys}))
+    # bright (and dark) values through long windows of the filters with negative lobes, on every back-end: the partial sums
+    # of such a window pass the final value on the way (a shortcut that stops accumulating early shows here)
+    for pt in ("U8", "U8x2", "U8x3", "U8x4", "U16", "U16x3"):
+        info = rz.PT[pt]
+        mx = info["max"]
+        for v in (mx - 1, mx - 4, mx - 10, mx - 19, 1, 3):
+            for flt in ("Lanczos3", "CatmullRom", "Mitchell"):
+                for (sw, sh, dw, dh) in ((64, 2, 3, 2), (3, 48, 3, 2), (100, 3, 7, 3)):
+                    n += 1
+                    if tier == "quick" and rz.pick(n, 119, [0, 1, 1]):
+                        continue
+                    for cpu in rz.CPUS:
+                        cases.append(rz.resize_case(pt, sw, sh, dw, dh, alg="conv", flt=flt, m=1, alpha=False, cpu=cpu,
+                                                    src_c={"g": "const", "v": [v] * info["nc"]}, log=("minmax",),
+                                                    chk=("pipeline", "ret_ok", "uniform_mm"), echo={"v": [v] * info["nc"]}))
     return cases
 
 
